@@ -22,9 +22,10 @@ import multiprocessing as mp
 import numpy as np
 
 from lib import core
+from props import iso_f
 from lib.core import Result, f2b, b2f
 
-READY = False
+READY = True
 MANIFEST = dict(
     text='Proof (Lean 4): the engine\'s thread blocks (size ceil(N/T)) cover rows 0..N-1 exactly once, none empty, for every N>=1 and every '
     'thread count T>=1 incl. T>N (C04.blocks_partition, each_row_once, block_interval); over R the accumulation loops equal '
@@ -175,6 +176,7 @@ def evaluate(database, case, T, via='kwarg', derivs=True):
 
 def evaluate_safe(res, database, case, T, via, desc, derivs=True):
     """a Python-level exception of the real code on a valid case is a failure of the property's entry points"""
+    iso_f.note(desc, 'calculate_likelihood / simulate')
     try:
         return evaluate(database, case, T, via, derivs)
     except Exception as e:  # noqa: BLE001
@@ -596,7 +598,7 @@ def corpus_case(c):
     return case, rng
 
 
-def check(ctx) -> Result:
+def check_impl(ctx) -> Result:
     res = Result(rule=RULE, tolerance='oracle: |L - fsum(w*l)| <= 1e-10*N*max(1,|term|); scaled: rel 1e-15; model vs code: bit for bit (engine order of additions)')
     rng = ctx.rng
     for c in CORPUS:
@@ -655,7 +657,7 @@ def search(ctx, res, broken):
             return
 
 
-def replay(ctx, obj):
+def replay_impl(ctx, obj):
     case = obj.get('case') or {}
     out = {'replayed': obj.get('what')}
     if 'rethread' in case:
@@ -686,3 +688,15 @@ def replay(ctx, obj):
     check_case(c2, r, case, threads=threads, rng=c2.rng)
     out.update({'property_fails': bool(r.violations), 'violations': r.violations[:3]})
     return out
+
+
+# ----------------------------------------------------------------------------- entry points (isolated)
+
+
+def check(ctx) -> Result:
+    """the streams run in a fresh interpreter: an engine that dies is reported with the case being evaluated"""
+    return iso_f.run_check_isolated('props.c04', ctx, 'calculate_likelihood / simulate')
+
+
+def replay(ctx, obj):
+    return iso_f.run_replay_isolated('props.c04', ctx, obj)
